@@ -22,6 +22,16 @@ the endpoint was seen to do right after it: request transmissions and returns of
   later) the call returns it (`noSuccess`; `lastWindow` when the answer came in the last copy's window after a
   housekeeping pass, defect F30), unless the caller cancelled first; no copy follows that response;
 * never more than NSTART requests transmitted and neither acknowledged/reset nor returned (`nstart`).
+
+Confirmable messages that are **not requests of `Conn.Do`** are judged by the same clauses (count, spacing, identity, no
+copy after a stop, bounded attempts), with their own notion of completion (`Res.acked`):
+* `ping` — `Conn.Ping(ctx)` / `AsyncPing`: a confirmable Empty message; the matching Reset (RFC 7252 §4.3: the pong) or
+  acknowledgement that gets back before the attempts are exhausted completes the ping;
+* `wcon` — `Conn.WriteMessage` of a confirmable message that is not a request (a separate response, a notification): the
+  matching acknowledgement that gets back before the attempts are exhausted completes the write; a Reset ends it too
+  (completion allowed, not demanded).
+Neither occupies one of the NSTART slots (RFC 7252 §4.7 limits outstanding *interactions*, i.e. requests); a completion
+(`acked`) is spurious unless a message carrying the message ID really came back.
 -/
 namespace CoapVerif.Spec.Retransmit
 
@@ -34,8 +44,14 @@ structure Cfg where
 inductive Kind | ack | rst | pig (tag : Nat)
   deriving Repr, DecidableEq
 
+/-- What kind of confirmable message an exchange carries. -/
+inductive RKind | req | ping | wcon
+  deriving Repr, DecidableEq
+
 inductive Ev
   | send (id : Nat) (deadline : Option Nat)   -- deadline relative to now
+  | ping (id : Nat) (deadline : Option Nat)   -- `Conn.Ping(ctx)`: a confirmable Empty message
+  | wcon (id : Nat) (deadline : Option Nat)   -- `Conn.WriteMessage` of a confirmable message that is not a request
   | sleep (d : Nat)
   | tick (ahead : Nat)                         -- CheckExpirations(now + ahead)
   | recvMid (id : Nat) (k : Kind)              -- a message carrying the request's message ID
@@ -45,6 +61,7 @@ inductive Ev
   deriving Repr, DecidableEq
 
 inductive Res | ok (tag : Nat) | ctx | deadline | nstart | other
+  | acked   -- a ping / a confirmable non-request write completed: its acknowledgement (pong) came back
   deriving Repr, DecidableEq
 
 structure Tx where
@@ -86,6 +103,7 @@ structure Rec where
   cancelled : Bool := false
   returned : Bool := false
   resps : List Nat := []      -- responses that came back, oldest first
+  kind : RKind := .req
   misused : Bool := false     -- the caller edited its message before the first transmission (while `Do` was running
                               -- and the request was queued): precondition of the API breached, identity not judged
   deriving Repr
@@ -112,10 +130,20 @@ def live (now : Nat) (r : Rec) : Bool :=
   !r.cancelled && !r.returned && (match r.deadline with | some d => now < d | none => true)
 
 /-- Effect of the stimulus; returns the new state and the success the step must show, if any. -/
-def applyEv (c : Cfg) (s : JState) : Ev → JState × Option (Nat × Nat × Bool)
-  | .send id dl =>
-    if (getRec s id).isSome then (s, none)
-    else ({ s with recs := s.recs ++ [{ id := id, deadline := dl.map (· + s.now) }] }, none)
+def addRec (s : JState) (id : Nat) (dl : Option Nat) (k : RKind) : JState :=
+  if (getRec s id).isSome then s
+  else { s with recs := s.recs ++ [{ id := id, deadline := dl.map (· + s.now), kind := k }] }
+
+/-- Does a message of kind `k` carrying the exchange's message ID acknowledge it?  A Reset rejects a request or a
+    confirmable response / notification; for a ping it is the expected answer (the pong). -/
+def acknowledges (rk : RKind) : Kind → Bool
+  | .rst => rk == .ping
+  | _ => true
+
+def applyEv (c : Cfg) (s : JState) : Ev → JState × Option (Nat × Res × Bool)
+  | .send id dl => (addRec s id dl .req, none)
+  | .ping id dl => (addRec s id dl .ping, none)
+  | .wcon id dl => (addRec s id dl .wcon, none)
   | .sleep d => ({ s with now := s.now + d }, none)
   | .tick ahead =>
     -- a request whose deadline lies before the housekeeping clock counts as given up by its caller
@@ -140,19 +168,22 @@ def applyEv (c : Cfg) (s : JState) : Ev → JState × Option (Nat × Nat × Bool
       if r.count = 0 then (s, none)   -- not transmitted yet: nothing can match it (the harness injects nothing)
       else
       let first := !r.stopped
-      let isAck := match k with | .rst => false | _ => true
+      let isAck := acknowledges r.kind k
       let fresh := !r.inTime && first && isAck && notExhausted c s.now r
       let inTime := r.inTime || fresh
       let late := r.lateWindow || (fresh && r.count == c.maxRetransmit + 1 && r.passSince)
-      let resps := match k with | .pig tag => r.resps ++ [tag] | _ => r.resps
+      let resps := match k with | .pig tag => if r.kind == .req then r.resps ++ [tag] else r.resps | _ => r.resps
       let r' := { r with stopped := true, acked := true, inTime := inTime, lateWindow := late, resps := resps }
-      let due := if inTime && live s.now r then resps.head?.map (fun tag => (id, tag, late)) else none
+      let due := if inTime && live s.now r then
+          (if r.kind == .req then resps.head?.map (fun tag => (id, Res.ok tag, late)) else some (id, Res.acked, late))
+        else none
       (setRec s r', due)
     | none => (s, none)
   | .resp id _ tag =>
     match getRec s id with
     | some r =>
       if r.count = 0 then (s, none)   -- a response cannot precede the request (the harness injects nothing)
+      else if r.kind != .req then (s, none)   -- nothing waits for a response by token
       else
       -- the matching response is an implicit acknowledgement (RFC 7252 5.2.2): it counts as "got back in time" when it
       -- is the first thing to come back and fewer than 1 + MAX copies were sent; no copy may follow it
@@ -161,7 +192,7 @@ def applyEv (c : Cfg) (s : JState) : Ev → JState × Option (Nat × Nat × Bool
       let inTime := r.inTime || fresh
       let late := r.lateWindow || (fresh && r.count == c.maxRetransmit + 1 && r.passSince)
       let r' := { r with stopped := true, inTime := inTime, lateWindow := late, resps := r.resps ++ [tag] }
-      let due := if inTime && live s.now r then r'.resps.head?.map (fun tag => (id, tag, late)) else none
+      let due := if inTime && live s.now r then r'.resps.head?.map (fun tag => (id, Res.ok tag, late)) else none
       (setRec s r', due)
     | none => (s, none)
 
@@ -181,13 +212,15 @@ def checkRet (s : JState) (x : Ret) : JState × Verdict :=
   | some r =>
     if r.returned then (s, .doubleReturn)
     else
-      let bad := match x.res with
-        | .ok tag => !r.resps.contains tag
+      let bad : Bool := match x.res with
+        | .ok tag => !(r.kind == .req && r.resps.contains tag)
+        | .acked => !(r.kind != .req && r.acked)
         | _ => false
       if bad then (s, .spuriousSuccess)
       else (setRec s { r with returned := true, stopped := true }, .ok)
 
-def outstanding (s : JState) : Nat := (s.recs.filter (fun r => r.count ≥ 1 && !r.acked && !r.returned)).length
+def outstanding (s : JState) : Nat :=
+  (s.recs.filter (fun r => r.kind == .req && r.count ≥ 1 && !r.acked && !r.returned)).length
 
 def foldV {α : Type} (f : JState → α → JState × Verdict) : JState → List α → JState × Verdict
   | s, [] => (s, .ok)
@@ -202,7 +235,7 @@ def stepJ (c : Cfg) (s : JState) (st : Step) : JState × Verdict :=
     match foldV checkRet s2 st.rets with
     | (s3, .ok) =>
       let okDue := match due with
-        | some (id, tag, _) => st.rets.any (fun r => r.id == id && r.res == .ok tag)
+        | some (id, res, _) => st.rets.any (fun r => r.id == id && r.res == res)
         | none => true
       let late := match due with
         | some (_, _, l) => l
